@@ -469,13 +469,16 @@ Proof.
     + destruct oi as [i|]; [phi_leaf | apply IH].
 Qed.
 
-Lemma phi_print_dirs l : Phi (print_dirs cf w l).
+Lemma phi_print_dirs l : forall v, Phi (print_dirs cf w l v).
 Proof.
-  induction l as [|d r IH]; cbn [print_dirs]; [phi_leaf|].
+  induction l as [|d r IH]; intros v; cbn [print_dirs]; [phi_leaf|].
   destruct d; try phi_leaf.
   destruct (lookup_directive name) as [[arglens ?]|]; [|phi_leaf].
   destruct (negb _); [phi_leaf|].
-  phi_bind; [apply phi_eval_list|]. phi_bind; [exact IH|]. phi_leaf.
+  phi_bind; [apply phi_eval_list|].
+  phi_bind; [apply (wl_lift L); apply (ps_string PS)|].
+  phi_bind; [apply (wl_lift L); apply (ps_print PS)|].
+  phi_bind; [apply IH|]. phi_leaf.
 Qed.
 
 Lemma phi_if_conds cs : Phi (if_conds w cs).
@@ -578,7 +581,7 @@ Proof.
   - (* NRawText *) phi_bind; phi_leaf.
   - (* NPrint *)
     phi_bind; [apply Hw|].
-    assert (Hrest : Phi (ds <-- print_dirs cf w dirs ;;;
+    assert (Hrest : Phi (ds <-- print_dirs cf w dirs x ;;;
                          s <-- lift (value_string x) ;;;
                          st <-- get ;;;
                          ws <-- lift (print_writes (mode st) ds s) ;;;
